@@ -453,3 +453,73 @@ def orm_visitors():
     t = ThingSa()
     return [("django", lambda: AstToDjangoQVisitor(Thing)), ("sa-orm", lambda: AstToSqlAlchemyOrmVisitor(t.Thing)),
             ("sa-core", lambda: AstToSqlAlchemyCoreVisitor(t.Thing.__table__))]
+
+
+# ---------------------------------------------------------------------------------------------- C19: equivalence of two spellings
+class Backends:
+    """Translate two spellings of one filter with every backend; ORM compilations are compared directly (same SQL text
+    and same parameter values = same result), SQL dialect outputs are queued and validated by TLC (Trace_Sql "same")."""
+
+    def __init__(self, ctx):
+        from odata_query.sql import AstToAthenaSqlVisitor, AstToSqliteSqlVisitor, AstToSqlVisitor
+        self.ctx = ctx
+        self.dialects = [("sql", AstToSqlVisitor), ("sqlite", AstToSqliteSqlVisitor), ("athena", AstToAthenaSqlVisitor)]
+        self.sa = ThingSa()
+        self.queue = []
+        self.info = {}
+        self.cache = {}
+
+    def _one(self, name, fn, text):
+        k = (name, text)
+        if k not in self.cache:
+            try:
+                self.cache[k] = ("ok", fn(text))
+            except Exception as e:  # noqa
+                self.cache[k] = ("exc", type(e).__name__)
+        return self.cache[k]
+
+    def equivalent(self, canon, variant, meta=None):
+        out = []
+        for name, V in self.dialects:
+            a = self._one(name, lambda t: V().visit(project.parse(t)), canon)
+            b = self._one(name, lambda t: V().visit(project.parse(t)), variant)
+            if a[0] != b[0] or (a[0] == "exc" and a != b):
+                out.append((name, "outcome %s vs %s" % (a, b)))
+            elif a[0] == "ok" and a[1] != b[1]:
+                cid = len(self.queue) + 1
+                self.queue.append({"id": cid, "kind": "same", "vary": "", "o1": project.cps(a[1]), "o2": project.cps(b[1])})
+                self.info[cid] = (name, canon, variant, a[1], b[1], meta)
+        for name, fn in (("django", django_thing), ("sa-orm", self.sa.orm), ("sa-core", self.sa.core)):
+            a = self._one(name, fn, canon)
+            b = self._one(name, fn, variant)
+            if a[0] != b[0] or (a[0] == "exc" and a != b):
+                out.append((name, "outcome %s vs %s" % (a[:2], b[:2])))
+            elif a[0] == "ok" and (a[1][0] != b[1][0] or [repr(p) for p in a[1][1]] != [repr(p) for p in b[1][1]]):
+                out.append((name, "compiled differently: %s %s | %s %s" % (a[1][0][-160:], a[1][1], b[1][0][-160:], b[1][1])))
+        return out
+
+    def finish(self):
+        """-> list of (dialect, canon, variant, sql1, sql2, verdict, meta) for queued pairs TLC rejects"""
+        import json
+        import tlc
+        if not self.queue:
+            return []
+        os.makedirs(tlc.BUILD, exist_ok=True)
+        path = os.path.join(tlc.BUILD, "trace_same_%d.json" % os.getpid())
+        with open(path, "w") as f:
+            json.dump(self.queue, f)
+        try:
+            res = tlc.run("Trace_Sql", env={"TRACE_FILE": path}, check_count=False,
+                          keep_lines=lambda r: r.get("k") == "verdict", timeout=3000, heap="12g")
+        finally:
+            os.unlink(path)
+        self.ctx.add_tlc(res)
+        seen = {r["id"]: r["v"] for r in res.records}
+        if len(seen) != len(self.queue):
+            raise tlc.MachineryError("Trace_Sql(same): %d verdicts for %d pairs" % (len(seen), len(self.queue)))
+        bad = []
+        for cid, v in seen.items():
+            self.ctx.traces += 1
+            if v != "ok":
+                bad.append(self.info[cid][:5] + (v, self.info[cid][5]))
+        return bad
